@@ -47,6 +47,9 @@ fn documents() -> Vec<(&'static str, Vec<u8>)> {
         ("fail-utf8", b"<svg><text>\xFF</text></svg>".to_vec()),
         ("fail-path", b"<svg><path d=\"M0 0 z 5\"/></svg>".to_vec()),
         ("fail-ns", b"<svg xmlns=\"http://example.com/x\"><rect wh=\"1\"/></svg>".to_vec()),
+        // failing late: content precedes the root whose attributes cannot be built
+        ("fail-late-ns", b"<!-- hello -->\n<svg xmlns=\"http://example.com/x\"><rect wh=\"5\"/></svg>".to_vec()),
+        ("fail-late-width", b"<!-- c --><?pi x?>\n<svg width=\"abc\"><rect wh=\"5\"/></svg>".to_vec()),
         // empty output
         ("empty", b"".to_vec()),
         ("only-var", b"<var a=\"1\"/>".to_vec()),
@@ -350,7 +353,7 @@ pub fn worker(args: &[String]) -> i32 {
 
 pub fn run(tier: Tier) -> i32 {
     let mut rep = Report::new("C07", tier, "model_checking");
-    rep.set("rule", json!("(agreement) 25 documents (every feature family, 9 failing ones, empty output, CRLF, BOM, non-UTF-8) x 7 configurations expressible in every front-end: transform_str = transform_stream = svgdx {file,stdin}->{file,stdout} = POST /api/transform, Err <=> exit status 1 with a message <=> HTTP 400 text/plain. (histories) breadth-first search over all sequences of <= 3 (thorough 4) requests from an 8-request alphabet (random values, other seed via <config>, defining ids/variables, referring to undefined ids/variables, failing, changing limits/theme via <config>, real SVG, loops + random) against ONE library process and ONE live server: in every state the last response equals that request's solo response. (schedules) a controlled scheduler over real OS threads (scheduling points: per-tag loop, PRNG access, set_var, update_element via the sched_point hook; only one thread runs at a time) explores for every ordered pair (thorough: and some triples) of 7 documents every interleaving with <= 2 preemptions for pairs and <= 1 for a triple (thorough: EVERY interleaving of each pair, <= 3 preemptions for 5 triples), iterating the bound; each thread's result must equal its solo result; one recorded schedule is replayed twice and must reproduce. (no damage) every failing document x output-file state {absent, empty, previous good output, arbitrary bytes, read-only} x {file, stdin} input: non-zero exit, message, output path holds exactly its previous content; same-file refusal for the output spelled identically, relatively, with ./, with a .. component, via a symlink, a symlinked directory and a hard link; (environment faults) a succeeding document with TMPDIR missing / a file, output a directory / under a missing directory / a full device, stdout a full device: non-zero exit, message, previous output content untouched. States/transitions: distinct histories + schedules / executions of the real transform."));
+    rep.set("rule", json!("(agreement) 25 documents (every feature family, 9 failing ones, empty output, CRLF, BOM, non-UTF-8) x 7 configurations expressible in every front-end: transform_str = transform_stream = svgdx {file,stdin}->{file,stdout} = POST /api/transform, Err <=> exit status 1 with a message <=> HTTP 400 text/plain. (histories) breadth-first search over all sequences of <= 3 (thorough 4) requests from an 8-request alphabet (random values, other seed via <config>, defining ids/variables, referring to undefined ids/variables, failing, changing limits/theme via <config>, real SVG, loops + random) against ONE library process and ONE live server: in every state the last response equals that request's solo response. (schedules) a controlled scheduler over real OS threads (scheduling points: per-tag loop, PRNG access, set_var, update_element via the sched_point hook; only one thread runs at a time) explores for every ordered pair (thorough: and some triples) of 7 documents every interleaving with <= 2 preemptions for pairs and <= 1 for a triple (thorough: EVERY interleaving of each pair, <= 3 preemptions for 5 triples), iterating the bound; each thread's result must equal its solo result; one recorded schedule is replayed twice and must reproduce. (no damage) every failing document x output-file state {absent, empty, previous good output, arbitrary bytes, read-only} x {file, stdin} input: non-zero exit, message, output path holds exactly its previous content; same-file refusal for the output spelled identically, relatively, with ./, with a .. component, via a symlink, a symlinked directory and a hard link; (environment faults) a succeeding document with TMPDIR missing / a file, output a directory / under a missing directory / a full device, stdout a full device: non-zero exit, message, previous output content untouched; the standard streams redirected from/to the input file are refused and pipes, /dev/stdin, /dev/stdout, an equal-content copy are accepted twice in a row with the library's bytes. (I/O faults) an LD_PRELOAD injector numbers every data-moving call of the command on its files (open-for-writing, read, write, copy_file_range, sendfile, ftruncate, fchmod, rename) and EVERY fault point k=1..N x {ENOSPC, EIO, EINTR, EDQUOT, short transfer then ENOSPC, sticky ENOSPC} x {small, large document} x {file, stdin} x {output absent, previous content} is run: exit 0 => exactly the library's bytes; otherwise a message and the previous output untouched; fault points must be identical between two counting runs. Also: an error value / non-zero exit comes with zero bytes written to the writer / stdout; documents of 2 MiB and 2 MiB+1 through the server. States/transitions: distinct histories + schedules / executions of the real transform."));
     let docs = documents();
     let cfgs = cli_configs();
     let tmp = std::path::PathBuf::from(format!("/verif/target/tmp-c07-{}", std::process::id()));
@@ -390,6 +393,13 @@ pub fn run(tier: Tier) -> i32 {
                     agree_viol.lock().unwrap().push(mk("str-vs-stream", format!("transform_str: {}\ntransform_stream: {}", clip(&ls.brief(), 300), clip(&lib_stream.brief(), 300))));
                 }
             }
+            if lib_stream.is_err() {
+                // an error value comes with nothing written to the caller's writer
+                let (_, n) = crate::common::run_bytes_written(doc, cfg);
+                if n != 0 {
+                    agree_viol.lock().unwrap().push(mk("partial-output-before-failure", format!("transform_stream returned an error after writing {n} bytes to the writer (transform_str and the server give nothing)")));
+                }
+            }
             let dir = tmp.join(format!("a{di}_{ci}"));
             let _ = std::fs::create_dir_all(&dir);
             let inp = dir.join("in.xml");
@@ -422,6 +432,8 @@ pub fn run(tier: Tier) -> i32 {
                                     agree_viol.lock().unwrap().push(mk("cli-succeeds-where-library-fails", format!("{fname}: exit {:?}", o.code)));
                                 } else if o.stderr.is_empty() {
                                     agree_viol.lock().unwrap().push(mk("cli-failure-without-message", fname.to_string()));
+                                } else if form % 2 == 0 && !o.stdout.is_empty() {
+                                    agree_viol.lock().unwrap().push(mk("partial-output-before-failure", format!("{fname}: exit {:?} after {} bytes on stdout", o.code, o.stdout.len())));
                                 } else if form % 2 == 1 && out_path.exists() {
                                     agree_viol.lock().unwrap().push(mk("output-file-created-on-failure", fname.to_string()));
                                 }
@@ -434,7 +446,17 @@ pub fn run(tier: Tier) -> i32 {
     }
     // server agreement (sequential; only add_metadata is expressible)
     if let Some(srv) = server.as_mut() {
-        for (dname, doc) in &docs {
+        // (with two large documents either side of 2 MiB, for the server and one command form)
+        let mut sdocs = docs.clone();
+        for (name, len) in [("large-2MiB", 2usize << 20), ("large-2MiB-plus-1", (2usize << 20) + 1)] {
+            let head = b"<svg><rect wh=\"5\"/><!--";
+            let tail = b"--></svg>";
+            let mut d = head.to_vec();
+            d.extend(std::iter::repeat(b'x').take(len - head.len() - tail.len()));
+            d.extend_from_slice(tail);
+            sdocs.push((name, d));
+        }
+        for (dname, doc) in &sdocs {
             for meta in [false, true] {
                 let cfg = Cfg { add_metadata: meta, ..Cfg::default() };
                 let lib = run_bytes(doc, &cfg);
@@ -834,6 +856,116 @@ pub fn run(tier: Tier) -> i32 {
                 }
             }
         }
+        // the standard streams redirected from / to the input file: refused as well
+        let expected = docs_expected(&content);
+        let streams: Vec<(&str, Vec<&str>, bool, bool)> = vec![
+            // (name, args, stdin is in.xml, stdout is in.xml opened read-write without truncation)
+            ("stdin-default-to-file", vec!["-o", "in.xml"], true, false),
+            ("stdin-dash-to-file", vec!["-", "-o", "in.xml"], true, false),
+            ("file-to-stdout", vec!["in.xml"], false, true),
+            ("file-to-stdout-dash", vec!["in.xml", "-o", "-"], false, true),
+            ("stdin-to-stdout", vec![], true, true),
+            ("dev-stdin-to-file", vec!["/dev/stdin", "-o", "in.xml"], true, false),
+            ("file-to-dev-stdout", vec!["in.xml", "-o", "/dev/stdout"], false, true),
+        ];
+        for (name, args, sin, sout) in streams {
+            let _ = std::fs::write(&inp, &content);
+            let mut cmd = Command::new(SVGDX_BIN);
+            cmd.args(&args).current_dir(&dir).stderr(Stdio::piped());
+            if sin {
+                let Ok(f) = std::fs::File::open(&inp) else { continue };
+                cmd.stdin(f);
+            } else {
+                cmd.stdin(Stdio::null());
+            }
+            if sout {
+                let Ok(f) = std::fs::OpenOptions::new().read(true).write(true).open(&inp) else { continue };
+                cmd.stdout(f);
+            } else {
+                cmd.stdout(Stdio::piped());
+            }
+            dmg_runs += 1;
+            let mk = |clause: &str, detail: String| Violation {
+                clause: clause.into(),
+                signature: format!("C07/same-file/{clause}/{name}"),
+                case: json!({"leg": "same-file", "spelling": name, "args": args, "stdin_is_input": sin, "stdout_is_input": sout}),
+                detail,
+            };
+            match cmd.output() {
+                Err(e) => dmg.push(mk("no-result", e.to_string())),
+                Ok(out) => {
+                    let after = std::fs::read(&inp).unwrap_or_default();
+                    if after != content {
+                        dmg.push(mk("input-overwritten", format!("svgdx {}: the input file now holds {} bytes (exit {:?})", args.join(" "), after.len(), out.status.code())));
+                    } else if out.status.code() == Some(0) {
+                        dmg.push(mk("not-refused", format!("svgdx {} exited 0", args.join(" "))));
+                    } else if out.stderr.is_empty() {
+                        dmg.push(mk("failure-without-message", String::new()));
+                    }
+                }
+            }
+        }
+        let _ = std::fs::write(&inp, &content);
+        // ... and what is NOT the same file is accepted, whatever already exists at the output:
+        // pipes on either side, a distinct file with equal content, devices
+        let _ = std::fs::write(dir.join("copy.svg"), &content);
+        let accepted: Vec<(&str, Vec<&str>, bool, Option<&str>)> = vec![
+            // (name, args, document on a piped stdin, output file to read back (None: stdout))
+            ("pipe-dev-stdin-to-existing-file", vec!["/dev/stdin", "-o", "copy.svg"], true, Some("copy.svg")),
+            ("pipe-dash-to-existing-file", vec!["-", "-o", "copy.svg"], true, Some("copy.svg")),
+            ("file-to-dev-stdout-pipe", vec!["in.xml", "-o", "/dev/stdout"], false, None),
+            ("file-to-dash-pipe", vec!["in.xml", "-o", "-"], false, None),
+            ("pipe-to-pipe", vec![], true, None),
+            ("dev-stdin-to-dev-stdout-pipes", vec!["/dev/stdin", "-o", "/dev/stdout"], true, None),
+            ("file-to-equal-content-copy", vec!["in.xml", "-o", "copy.svg"], false, Some("copy.svg")),
+            ("file-to-dev-null", vec!["in.xml", "-o", "/dev/null"], false, Some("/dev/null")),
+        ];
+        for (name, args, piped, readback) in accepted {
+            for round in 0..2 {
+                // twice: the second time the output exists and holds the previous result
+                if readback == Some("copy.svg") && round == 0 {
+                    let _ = std::fs::write(dir.join("copy.svg"), &content);
+                }
+                let a: Vec<String> = args.iter().map(|x| x.to_string()).collect();
+                let r = run_cmd(&a, if piped { Some(&content) } else { None }, &dir);
+                dmg_runs += 1;
+                let mk = |clause: &str, detail: String| Violation {
+                    clause: clause.into(),
+                    signature: format!("C07/distinct-file/{clause}/{name}"),
+                    case: json!({"leg": "distinct-file", "spelling": name, "args": args, "round": round}),
+                    detail,
+                };
+                match r {
+                    Err(e) => dmg.push(mk("no-result", e)),
+                    Ok(out) => {
+                        if out.code != Some(0) {
+                            dmg.push(mk("valid-run-refused", format!("svgdx {} (round {round}): exit {:?}: {}", args.join(" "), out.code, clip(&String::from_utf8_lossy(&out.stderr), 160))));
+                            continue;
+                        }
+                        let got = match readback {
+                            None => out.stdout.clone(),
+                            Some("/dev/null") => expected.clone(),
+                            Some(f) => std::fs::read(dir.join(f)).unwrap_or_default(),
+                        };
+                        if got != expected {
+                            dmg.push(mk("bytes-differ", format!("svgdx {} (round {round}): {} bytes, library gives {}", args.join(" "), got.len(), expected.len())));
+                        }
+                        if std::fs::read(&inp).unwrap_or_default() != content {
+                            dmg.push(mk("input-file-damaged", String::new()));
+                            let _ = std::fs::write(&inp, &content);
+                        }
+                    }
+                }
+            }
+        }
+    }
+    // ---- (5) I/O faults at every fault point of the command's file handling
+    {
+        let (runs, points, viol, errs) = io_faults(&tmp, tier);
+        dmg_runs += runs;
+        rep.set("io_fault_points", json!(points));
+        dmg.extend(viol);
+        rep.machinery_errors.extend(errs);
     }
     rep.add("evaluations", dmg_runs);
     rep.add("distinct_nontrivial", dmg_runs);
@@ -846,6 +978,199 @@ pub fn run(tier: Tier) -> i32 {
     rep.assume("interleavings are explored at the granularity of the injected scheduling points (one thread runs at a time); memory-model-level races are out of scope (the crate shares no mutable state between transforms)");
     rep.assume("the server exposes only add_metadata; other configurations are compared between library and command");
     rep.finish()
+}
+
+struct FaultRun {
+    code: Option<i32>,
+    stderr: Vec<u8>,
+    log: Vec<(u64, String, String, i64)>, // (k, op, path, result)
+}
+
+fn fault_run(shim: &std::path::Path, dir: &std::path::Path, doc: &[u8], stdin_mode: bool, out_arg: &str, at: u64, mode: &str, errno: i32) -> Result<FaultRun, String> {
+    let log = dir.join("fault.log");
+    let _ = std::fs::remove_file(&log);
+    let mut cmd = Command::new(SVGDX_BIN);
+    if !stdin_mode {
+        cmd.arg("in.xml");
+    }
+    cmd.args(["-o", out_arg]).current_dir(dir).stdout(Stdio::piped()).stderr(Stdio::piped());
+    cmd.env("LD_PRELOAD", shim).env("VERIF_FAULT_DIR", dir).env("VERIF_FAULT_LOG", &log).env("TMPDIR", dir.join("tmp"));
+    cmd.env("VERIF_FAULT_AT", at.to_string()).env("VERIF_FAULT_MODE", mode).env("VERIF_FAULT_ERRNO", errno.to_string());
+    cmd.env("VERIF_FAULT_STDIN", if stdin_mode { "1" } else { "0" });
+    if stdin_mode {
+        cmd.stdin(std::fs::File::open(dir.join("stdin.data")).map_err(|e| e.to_string())?);
+    } else {
+        cmd.stdin(Stdio::null());
+    }
+    let _ = doc;
+    let mut child = cmd.spawn().map_err(|e| e.to_string())?;
+    let start = Instant::now();
+    loop {
+        match child.try_wait() {
+            Ok(Some(_)) => break,
+            Ok(None) => {
+                if start.elapsed() > Duration::from_secs(20) {
+                    let _ = child.kill();
+                    let _ = child.wait();
+                    return Err("svgdx command did not exit within 20s under an injected fault".into());
+                }
+                std::thread::sleep(Duration::from_millis(2));
+            }
+            Err(e) => return Err(e.to_string()),
+        }
+    }
+    let o = child.wait_with_output().map_err(|e| e.to_string())?;
+    let text = std::fs::read_to_string(&log).unwrap_or_default();
+    let mut entries = Vec::new();
+    for l in text.lines() {
+        let f: Vec<&str> = l.split(' ').collect();
+        if f.len() >= 5 {
+            entries.push((f[0].parse().unwrap_or(0), f[1].to_string(), f[2..f.len() - 2].join(" "), f[f.len() - 1].parse().unwrap_or(0)));
+        }
+    }
+    Ok(FaultRun { code: o.status.code(), stderr: o.stderr, log: entries })
+}
+
+/// Every fault point x fault kind x output state x input form, for a small and a large document.
+fn io_faults(tmp: &std::path::Path, tier: Tier) -> (u64, u64, Vec<Violation>, Vec<String>) {
+    let mut errs = Vec::new();
+    let mut viol = Vec::new();
+    let shim = std::path::PathBuf::from("/verif/target/faultshim.so");
+    let cc = Command::new("cc").args(["-shared", "-fPIC", "-O1", "-o"]).arg(&shim).arg("/verif/scripts/faultshim.c").arg("-ldl").output();
+    match cc {
+        Ok(o) if o.status.success() => {}
+        Ok(o) => {
+            errs.push(format!("fault shim does not compile: {}", clip(&String::from_utf8_lossy(&o.stderr), 300)));
+            return (0, 0, viol, errs);
+        }
+        Err(e) => {
+            errs.push(format!("cc: {e}"));
+            return (0, 0, viol, errs);
+        }
+    }
+    let small = b"<svg><rect wh=\"5\"/></svg>".to_vec();
+    let mut large = b"<svg>".to_vec();
+    for i in 0..(if tier == Tier::Thorough { 3000 } else { 600 }) {
+        large.extend_from_slice(format!("<rect xy=\"{} {}\" wh=\"4\" text=\"cell {}\"/>\n", (i % 40) * 5, (i / 40) * 5, i).as_bytes());
+    }
+    large.extend_from_slice(b"</svg>");
+    let docs = [("small", small), ("large", large)];
+    let kinds: Vec<(&str, &str, i32)> = vec![("enospc", "fail", 28), ("eio", "fail", 5), ("short-then-enospc", "short", 28), ("sticky-enospc", "sticky", 28), ("eintr", "fail", 4), ("edquot", "fail", 122)];
+    let mut runs = 0u64;
+    let mut points = 0u64;
+    let jobs: Vec<(usize, bool, bool)> = (0..docs.len()).flat_map(|d| [false, true].into_iter().flat_map(move |s| [false, true].into_iter().map(move |p| (d, s, p)))).collect();
+    use rayon::prelude::*;
+    let results: Vec<(u64, u64, Vec<Violation>, Vec<String>)> = jobs
+        .par_iter()
+        .map(|(di, stdin_mode, prev_exists)| {
+            let (dname, doc) = &docs[*di];
+            let mut v = Vec::new();
+            let mut e = Vec::new();
+            let mut runs = 0u64;
+            let dir = tmp.join(format!("f_{dname}_{stdin_mode}_{prev_exists}"));
+            let _ = std::fs::create_dir_all(dir.join("tmp"));
+            let _ = std::fs::write(dir.join("in.xml"), doc);
+            let _ = std::fs::write(dir.join("stdin.data"), doc);
+            let expected = docs_expected(doc);
+            let previous = b"PRECIOUS PREVIOUS OUTPUT\n".to_vec();
+            let reset = |dir: &std::path::Path| {
+                let _ = std::fs::remove_file(dir.join("out.svg"));
+                if *prev_exists {
+                    let _ = std::fs::write(dir.join("out.svg"), &previous);
+                }
+            };
+            // counting run (twice: the fault points are a function of the case)
+            let norm = |r: &FaultRun| -> Vec<(String, String)> { r.log.iter().map(|(_, op, p, _)| (op.clone(), if p.contains("/tmp/.tmp") { "<temp>".to_string() } else { p.rsplit('/').next().unwrap_or("").to_string() })).collect() };
+            reset(&dir);
+            let c1 = match fault_run(&shim, &dir, doc, *stdin_mode, "out.svg", 0, "fail", 28) {
+                Ok(r) => r,
+                Err(er) => {
+                    e.push(format!("io-faults counting run: {er}"));
+                    return (0, 0, v, e);
+                }
+            };
+            runs += 1;
+            if c1.code != Some(0) || std::fs::read(dir.join("out.svg")).unwrap_or_default() != expected {
+                e.push(format!("io-faults: the run without a fault does not give the library's bytes under the shim (exit {:?}: {})", c1.code, clip(&String::from_utf8_lossy(&c1.stderr), 200)));
+                return (runs, 0, v, e);
+            }
+            reset(&dir);
+            if let Ok(c2) = fault_run(&shim, &dir, doc, *stdin_mode, "out.svg", 0, "fail", 28) {
+                runs += 1;
+                if norm(&c2) != norm(&c1) {
+                    e.push(format!("io-faults: fault points differ between two runs of the same case ({dname}, stdin {stdin_mode}): {:?} vs {:?}", norm(&c1), norm(&c2)));
+                    return (runs, 0, v, e);
+                }
+            }
+            let n = c1.log.len() as u64;
+            if n < 5 {
+                e.push(format!("io-faults: only {n} fault points seen ({dname}, stdin {stdin_mode}) - the shim is not intercepting"));
+                return (runs, 0, v, e);
+            }
+            for (kname, mode, errno) in &kinds {
+                for k in 1..=n {
+                    reset(&dir);
+                    let r = fault_run(&shim, &dir, doc, *stdin_mode, "out.svg", k, mode, *errno);
+                    runs += 1;
+                    // the first point that failed, as the shim logged it
+                    let site = |r: &FaultRun| -> String {
+                        match r.log.iter().find(|(_, _, _, res)| *res < 0) {
+                            Some((_, op, p, _)) => format!("{}/{op}", if p.ends_with("out.svg") { "on-output" } else if p.contains("/tmp/") { "on-temp" } else { "on-input" }),
+                            None => "none".into(),
+                        }
+                    };
+                    let mk = |clause: &str, site: &str, detail: String| Violation {
+                        clause: clause.into(),
+                        signature: format!("C07/io-fault/{clause}/{site}"),
+                        case: json!({"leg": "io-fault", "doc": dname, "stdin": stdin_mode, "previous_output": prev_exists, "kind": kname, "fault_point": k, "of": n}),
+                        detail,
+                    };
+                    match r {
+                        Err(er) => v.push(mk("no-result", "?", er)),
+                        Ok(r) => {
+                            let st = site(&r);
+                            let after = std::fs::read(dir.join("out.svg")).ok();
+                            if std::fs::read(dir.join("in.xml")).unwrap_or_default() != *doc {
+                                v.push(mk("input-file-damaged", &st, String::new()));
+                                let _ = std::fs::write(dir.join("in.xml"), doc);
+                            }
+                            match r.code {
+                                Some(0) => {
+                                    if after.as_deref() != Some(&expected[..]) {
+                                        v.push(mk("success-reported-with-wrong-bytes", &st, format!("exit 0 with fault {kname} at point {k}/{n} ({st}); out.svg holds {:?} bytes, expected {}", after.as_ref().map(|a| a.len()), expected.len())));
+                                    }
+                                }
+                                Some(_) => {
+                                    if r.stderr.is_empty() {
+                                        v.push(mk("failure-without-message", &st, String::new()));
+                                    }
+                                    if *prev_exists && after.as_deref() != Some(&previous[..]) {
+                                        v.push(mk("output-file-damaged", &st, format!("fault {kname} at point {k}/{n} ({st}): exit {:?} ({}), and the previous output ({} bytes) is now {:?} bytes", r.code, clip(String::from_utf8_lossy(&r.stderr).trim(), 120), previous.len(), after.as_ref().map(|a| a.len()))));
+                                    }
+                                }
+                                None => v.push(mk("killed", &st, format!("fault {kname} at point {k}/{n}: the command was killed by a signal"))),
+                            }
+                        }
+                    }
+                }
+            }
+            (runs, n, v, e)
+        })
+        .collect();
+    for (r, n, v, e) in results {
+        runs += r;
+        points += n;
+        viol.extend(v);
+        errs.extend(e);
+    }
+    (runs, points, viol, errs)
+}
+
+fn docs_expected(doc: &[u8]) -> Vec<u8> {
+    match run_bytes(doc, &Cfg::default()) {
+        Outcome::Ok(b) => b,
+        _ => Vec::new(),
+    }
 }
 
 pub fn replay_case(case: &Value) -> Option<Violation> {
